@@ -245,7 +245,7 @@ ADDED_RULES = {
     'C03': 'R-AFTERRELEASE (no use after the last owned DecRef), R-HANDLEASSIGN (IntrusivePtr same-type move assignment swaps: the handles\' defaulted move assignment relies on the moved-from destructor protocol). R-HANDLESPEC (IntrusivePtr members against ownership conservation by abstract interpretation), R-HANDLEMOVE (move assignment of the owning handles never releases the old state by a bare DecRef). R-STOREOVER (typestate of the Result storage of constructed-ready cores), R-APICOVER (every public function template is instantiated by some analysed unit; an uncovered entry is exit 2). R-ADOPT (a reference adopted with NoRefTag was taken by the same function, IncRef first; Reset(NoRefTag) only overwrites the handle of an object created in the same function, helpers followed). R-HANDOFF (shared with C04).',
     'C04': 'R-CASFRESH (every retry of a compare-exchange re-tests the refreshed expected value against what the first attempt tested), R-ORDER role=decision (a relaxed counter read may steer a branch only if an acquiring RMW follows), R-ODR. R-WAITRETURN (shared with C11: a multi-future wait returns only with last-one evidence through the counter\'s acquiring RMW). R-EVENT (shared with C11: the setter\'s last access to a stack event is the unlock). R-HANDOFF (a When* combinator is not touched after its last input has been registered: loop condition / increment / code after the registration loop work on locals).',
     'C05': 'R-START (shared with C12), R-RESUME.executor (a coroutine resumed inline takes the resuming core\'s executor), R-ROUTE.drop for every result-bearing Drop(). The pool rules of C08 (R-LOCKSET accept+enqueue, R-DRAIN, R-WAKE, R-FIFO, R-JOINALL), R-LISTSPEC (detail::List implements its sequence specification: abstract interpretation over an explicit heap, all lengths by a small-model argument) and R-JOBFIELDS (Strand members holding jobs are drained by Drop as well as Call). R-ROUTE.bind (the factory stores the executor argument; the predecessor\'s executor is inherited exactly when the step has none). R-ATTACHFORM (the 17 public attach forms hand the step factory the executor argument, Call / Detach / Lazy bits and On flavour that their name and signature promise). R-STRAND.one-batch (shared with C07). R-ROUTE.writers accepts a helper used only by routing sites.',
-    'C06': 'R-AFTERRELEASE, R-MOVEOUT.site (guard dominance GetRef() == 1 at every move-out of a not statically unique core), R-COMMIT, R-CASFRESH on the shared push. R-GETWAIT (Get reads the Result only after Wait / Ready). R-ONENODE (a combinator callback node is registered on at most one shared input; SingleCombinator over a shared core only for one input).',
+    'C06': 'R-AFTERRELEASE, R-MOVEOUT.site (guard dominance GetRef() == 1 at every move-out of a not statically unique core), R-COMMIT, R-CASFRESH on the shared push. R-GETWAIT (Get reads the Result only after Wait / Ready). R-ONENODE (a combinator callback node is registered on at most one shared input; SingleCombinator over a shared core only for one input). R-BRIDGE (Share / Split connect the source to the promise of the contract they make on every path).',
     'C07': 'R-JOBFIELDS (every member of Strand that can hold jobs and is used by Call() is drained by Drop() too). R-STRAND.link (the published job links to the observed head iff that head is a job list), R-SHAPE with order (the batch is Called oldest first). R-STRAND.one-batch (one invocation of Strand::Call detaches one batch; later arrivals go through a new submission to the underlying executor).',
     'C08': 'R-WAKE (Submit notifies after enqueue; stop is followed by notify_all; a worker sleeps only after re-testing queue and stop under the lock), R-FIFO, R-JOINALL, R-LISTSPEC (detail::List against its sequence specification by abstract interpretation over an explicit heap). R-STOPFINAL (the stopped state is final whatever its representation).',
     'C09': 'R-LOOPCALLER, R-MOVEOUT.site on the strategies; R-POLICYFWD (every instantiation parameterised by a FailPolicy hands the same policy to each callee parameterised by one: entry point -> when::When -> strategy). R-OUTCOME (every Promise::Set hands on an accessor of the consumed Result or the collected values). R-INDEX (ordered static combinators: input I registers the callback carrying index I). R-MOVEOUT.site also covers SharedCore::Retire / UniqueCore::Retire. R-ONENODE, R-HANDOFF (shared with C06 / C04).',
@@ -255,7 +255,7 @@ ADDED_RULES = {
     'C13': 'R-RESUME.executor (every PromiseType::Impl instantiation takes the resuming core\'s executor on every path). R-MOVEOUT.site on the coroutine awaiters. R-PROMISE (initial_suspend / unhandled_exception / return_value / await_resume forms per PromiseType instantiation). R-AWAITEVENT (multi-future Await resumes exactly once, by the last completion; awaited futures left alone; sticky forms resume through Submit). R-AWAITERFORM (scheduling awaiters: a path of await_suspend that stays suspended has handed the coroutine on, one returning false has not; await_ready constant false for pure executor switches). R-ONEXEC (an executor-naming awaiter resumes the coroutine through that executor on every path: await_suspend never answers do-not-suspend, helpers followed).',
     'C14': 'R-GUARDSTATE (every GuardState member follows its row of the ownership table: summaries evaluated on {null,P,Q} x {owns,not}), R-GUARDCALLS (mode of every call from a guard into its mutex, state transition first, TryLock resets on failure, Release never unlocks), R-CASFRESH. R-SHAPE with order: GetHead<FIFO=true> returns a chain running from the oldest waiter to the newest. R-SHAPE on the grant paths UnlockHereAwait / AwaitUnlockOn (the waiter handed on is the oldest of the detached batch, the rest is parked oldest first under FIFO). R-LOCKAPI (guards built after an acquisition adopt, TryGuard tries; an unlock awaiter that reports ready has released the lock exactly once on that path; lock awaiters call the entry points of their mode).',
     'C15': 'R-GUARDCALLS for UniqueGuard / SharedGuard of the shared mutex; R-INV clauses V (a failing try never modified _state) and R (reader exit / first-writer arming). R-WRAPWIDTH (a counter value and the negated quantity it is compared with have the same width). R-WRAPWIDTH resolves the negation through single-definition locals. R-LOCKAPI (shared with C14) on SharedMutex: TryGuard / TryGuardShared tags, shared / exclusive lock awaiters.',
-    'C16': 'R-ADDFIRST, R-CASFRESH on TryAdd. R-EVENTFORMS (Set stores the all-done sentinel, TryAdd links in front of the expected head, Wait blocks iff registered, always-suspending awaiters resume themselves when not registered, sticky / on-executor awaiters resume through Submit). R-EVENTCALLBACK (shared with C11). R-SIBLING: Done is reached only with a provably positive amount. R-WGMODE (Consume takes ownership of the cores and registers the releasing callback, Attach does not; every overload selects its mode), R-WGRESET (Reset re-arms the event and sets the counter).',
+    'C16': 'R-ADDFIRST, R-CASFRESH on TryAdd. R-EVENTFORMS (Set stores the all-done sentinel, TryAdd links in front of the expected head, Wait blocks iff registered, always-suspending awaiters resume themselves when not registered, sticky / on-executor awaiters resume through Submit). R-EVENTCALLBACK (shared with C11). R-SIBLING: Done is reached only with a provably positive amount. R-WGMODE (Consume takes ownership of the cores and registers the releasing callback, Attach does not; every overload selects its mode), R-WGRESET (Reset re-arms the event and sets the counter). R-WGWAIT (Wait / WaitFor / WaitUntil answer through the event only, never on the counter alone).',
     'C17': 'D2 is type based (the engine is found whatever it is called; SetSeed stores the seed, re-seeds on every path and restarts the draw counter), D4 pointer-in-key. D2 converse (counter and engine advance together on every path of GetRandNumber; ForwardToRandCount iterates exactly the recorded count). D7 (the mutable static state of the fault layer is the reviewed set; a new static that decision code reads is reported). D7 accepts table statics regrouped into one aggregate (as many vanished entries as fields).',
     'C19': 'compare-exchange on floating T decides on the object representation (found F13); a wrapper operation built on the injected weak CAS must not decide with == / != on floating values. R-OPTABLE compares integral operations modulo 2^N (a + (0 - b) is a - b for integral T only); private helpers are judged through their users.',
     'C20': 'probe entries for fat captures (72 B, 1 KiB), mutable lambda, function pointer / reference and lvalue functor across the step kinds. Probe value type LooseValue (move constructor not noexcept) through WhenAll / WhenAny / Join: a copy per input in Retire is an unbounded allocation; std::string members classified; vector::reserve counted as one block.',
